@@ -309,6 +309,35 @@ func (u *Unit) applyContract(fr *Frame, st *State, x *ssa.Call, fn *ssa.Function
 		_ = o
 		u.assume(st.pc, t)
 	}
+	// termination of direct recursion: the callee's measure, evaluated on the arguments, is strictly below the
+	// caller's measure at entry, which is non-negative. A recursive call of a function without a decreases clause is
+	// an obligation that cannot be discharged.
+	tf := fr
+	for tf.caller != nil {
+		tf = tf.caller
+	}
+	if !extern && fn == tf.fn && u.genPanics {
+		var dec *Clause
+		for _, cl := range c.Clauses {
+			if cl.Kind == "decreases" {
+				dec = cl
+			}
+		}
+		goal := False
+		lbl := "recursion_without_decreases"
+		if dec != nil {
+			lbl = dec.Label
+			callee, err1 := env.EvalInt(dec.Expr)
+			entryEnv := u.contractEnv(fn, tf.params, nil, tf.entry, tf.entry)
+			caller, err2 := entryEnv.EvalInt(dec.Expr)
+			if err1 != nil || err2 != nil {
+				u.errs = append(u.errs, fmt.Sprintf("%s decreases %s: %v %v", name, dec.Label, err1, err2))
+			} else {
+				goal = And(Ge(caller, IntLit(0)), Lt(callee, caller))
+			}
+		}
+		u.oblige(st, "panic", fnName(fr.fn), fmt.Sprintf("call#%d:%s.%s", ord, name, lbl), u.eng.posOf(x.Pos()), goal, []string{"C06"})
+	}
 	post := st.Clone()
 	u.comment("call " + name + " (contract)")
 	// allocation may advance
